@@ -540,6 +540,16 @@ def judge_case(spec, rec):
         call(rival, exp_text, exp_text)
         rec.calls(2)
         rec.cls('subgrader-object-shared-with-a-rival-list')
+    if spec['form'] == 'infer' and len(text) % 2 == 0:
+        # history for graders that infer their answers from the expect value: earlier calls with ANOTHER expected list,
+        # the first of which fails while grading (blank item / wrong count) - the judged call brings its own expect value
+        # and must be graded against that (a seeded change marked the grader as "inferring" only after a successful call)
+        d0 = levels[0]['delim']
+        call(grader, 'zq1' + d0 + 'zq2', 'zq1' + d0 + ' ')
+        call(grader, 'zq1' + d0 + 'zq2', 'zq1')
+        call(grader, 'zq1' + d0 + 'zq2' + d0 + 'zq3', 'zq1' + d0 + 'zq2' + d0 + 'zq3')
+        rec.calls(3)
+        rec.cls('infer/after-calls-with-another-expect')
     kind, val = call(grader, expect_arg, text)
     rec.calls()
     # the very same submission once more on the same grader object (a student pressing "submit" again, a rescore): same
